@@ -1,6 +1,7 @@
 package stream
 
 import (
+	"bytes"
 	"encoding/json"
 	"fmt"
 	"math/rand"
@@ -73,6 +74,29 @@ func (g *gen) msgs(kinds []string, tc tcombo, limit int) [][]byte {
 			if m == nil {
 				m = mkChunk(seq, nil, "")
 			}
+		case k == "AR":
+			// at the limit and highly compressible
+			if limit <= 0 {
+				limit = 200
+			}
+			if tc.Codec == "json" {
+				m = jsonChunkOfSize(seq, limit)
+			} else {
+				m = chunkOfSize(seq, limit, func(n int) []byte { return bytes.Repeat([]byte{'a'}, n) })
+			}
+			if m == nil {
+				m = mkChunk(seq, nil, "")
+			}
+		case k[0] == 'R':
+			// a run of one byte
+			var n int
+			fmt.Sscanf(k[1:], "%d", &n)
+			m = mkChunk(seq, nil, strings.Repeat("a", n))
+		case k[0] == 'P':
+			// periodic text
+			var n int
+			fmt.Sscanf(k[1:], "%d", &n)
+			m = mkChunk(seq, nil, strings.Repeat("the quick brown fox {jumps} ", n/28+1)[:n])
 		case strings.HasPrefix(k, "D"):
 			var n int
 			fmt.Sscanf(k[1:], "%d", &n)
@@ -283,6 +307,9 @@ func shapeKey(c *Case, ex expect, outcome string) string {
 	if c.CT != "" {
 		shape += "+body-type-" + c.CT
 	}
+	if c.KnownLen {
+		shape += "+content-length"
+	}
 	if c.Poison {
 		shape += "+after-failed-decompression"
 	}
@@ -444,6 +471,7 @@ func RunC06(r *mon.Run) {
 	g.timed("laneGzipMembers", func() { g.laneGzipMembers() })
 	g.timed("laneWebTextEncodings", func() { g.laneWebTextEncodings() })
 	g.timed("laneBodyContentTypes", func() { g.laneBodyContentTypes() })
+	g.timed("laneEncodedDelivery", func() { g.laneEncodedDelivery() })
 	g.timed("lanePoisonedPool", func() { g.lanePoisonedPool() })
 	g.timed("laneReal", func() { g.laneReal() })
 	g.timed("laneConcurrent", func() { g.laneConcurrent() })
@@ -620,6 +648,70 @@ func (g *gen) laneInterleave() {
 				c := &Case{T: "http", Codec: "httpbody", Shape: "upbidi", Limit: L, Echo: true, EchoMode: md.echo, EchoEvery: md.every, Interfere: md.interfere, Trunc: -1, Msgs: [][]byte{prf(g.rng, n)}}
 				build(c, bodyOpt{})
 				g.sweepSchedules(c, 0, samples)
+			}
+		}
+	}
+}
+
+// laneEncodedDelivery: client streams and uploads over HTTP x content
+// encoding (identity, gzip) x body delivery (announced Content-Length of the
+// encoded body vs unknown length) x payload compressibility (runs of one
+// byte, periodic text, PRF bytes) x message sizes from small to the limit.
+func (g *gen) laneEncodedDelivery() {
+	r := g.r
+	samples := r.Pick(1, 4)
+	type sq struct {
+		limit int
+		kinds []string
+	}
+	seqs := []sq{
+		{0, []string{"R3000", "T", "R3000"}}, {0, []string{"P2000", "R50", "E", "D300"}}, {0, []string{"D300", "R1000", "P40"}},
+		{1000, []string{"AR", "T", "AR"}}, {128, []string{"AR", "AR"}}, {1000, []string{"R900", "P700", "E"}},
+		{0, []string{"R100000", "T"}},
+	}
+	if r.Thorough() {
+		seqs = append(seqs, sq{0, []string{"R1", "R10", "R100", "R1000", "R10000"}}, sq{64, []string{"AR", "T", "AR", "E", "AR"}}, sq{0, []string{"P5000", "P5000", "P5000"}}, sq{0, []string{"R400000"}}, sq{1000, []string{"A", "AR", "A"}})
+	}
+	idx := 0
+	for _, tc := range []tcombo{{"http", "json", "gzip"}, {"http", "proto", "gzip"}, {"http", "json", ""}, {"http", "proto", ""}} {
+		for _, q := range seqs {
+			for _, known := range []bool{true, false} {
+				idx++
+				shape := []string{"cs", "bidi"}[idx/2%2]
+				c := &Case{T: tc.T, Codec: tc.Codec, CE: tc.CE, Shape: shape, Echo: shape == "bidi", Limit: q.limit, KnownLen: known, Trunc: -1}
+				c.Msgs = g.msgs(q.kinds, tc, q.limit)
+				if shape == "cs" {
+					c.Reply = [][]byte{g.reply(len(q.kinds))}
+				}
+				lay := ""
+				if tc.CE == "gzip" && idx%3 == 0 {
+					lay = "per-message"
+				}
+				build(c, bodyOpt{members: lay, rng: g.rng})
+				g.sweepSchedules(c, 0, samples)
+			}
+		}
+	}
+	// HttpBody uploads
+	for _, ce := range []string{"gzip", ""} {
+		for _, L := range []int{64, 1000, 0} {
+			for k, n := range []int{1, 63, 64, 1000, 5000} {
+				for _, known := range []bool{true, false} {
+					var up []byte
+					switch k % 3 {
+					case 0:
+						up = bytes.Repeat([]byte{'a'}, n)
+					case 1:
+						up = []byte(strings.Repeat("the quick brown fox {jumps} ", n/28+1)[:n])
+					default:
+						up = prf(g.rng, n)
+					}
+					for _, mode := range []string{"upload", "upbidi"} {
+						c := &Case{T: "http", Codec: "httpbody", CE: ce, Shape: mode, Limit: L, Echo: mode == "upbidi", KnownLen: known, Trunc: -1, Msgs: [][]byte{up}, Reply: [][]byte{{}}}
+						build(c, bodyOpt{})
+						g.sweepSchedules(c, 0, samples)
+					}
+				}
 			}
 		}
 	}
